@@ -144,6 +144,11 @@ func replayTrace(harness string, tr *vsched.Trace, sites []report.Site, scratch,
 			fs[f] = true
 		}
 	}
+	for _, f := range tr.Files {
+		if instrumentable(f) && !strings.HasSuffix(f, "_test.go") {
+			fs[f] = true
+		}
+	}
 	var files []string
 	for f := range fs {
 		files = append(files, f)
@@ -159,9 +164,11 @@ func replayTrace(harness string, tr *vsched.Trace, sites []report.Site, scratch,
 	b, _ := json.Marshal(tr)
 	os.WriteFile(tracePath, b, 0o644)
 
-	expectStuck, expectAssert, expectPanic := false, []string{}, false
+	expectStuck, expectAssert, expectPanic, expectSpin := false, []string{}, false, false
 	for _, s := range sites {
 		switch s.Kind {
+		case "spin":
+			expectSpin = true
 		case "stuck":
 			expectStuck = true
 		case "assert":
@@ -219,6 +226,9 @@ func replayTrace(harness string, tr *vsched.Trace, sites []report.Site, scratch,
 			rr.Reproduced = true
 		}
 		if expectStuck && res.Completed && len(res.Blocked) > 0 {
+			rr.Reproduced = true
+		}
+		if expectSpin && strings.Contains(fails, "livelock") {
 			rr.Reproduced = true
 		}
 		rr.Detail = fmt.Sprintf("completed=%v diverged=%q failures=%q blocked=%v", res.Completed, res.Diverged, fails, res.Blocked)
